@@ -7,7 +7,9 @@ RULE = ("family F-RC: open polylines on the 5x5 lattice (step 8 units) against r
         "are enumerated by TLC (GenRC.tla) and replayed; four-vertex polylines sampled (quick) or all 390 625 enumerated by index (thorough); 5-7-vertex "
         "random polylines, 5-9-vertex ring walks and polylines with arbitrary integer vertices (off the lattice); embeddings: identity, translation to |coordinate| = 2^40, scale 3 and 7 with translation (exact: "
         "TLC sees real - t), scale 2^13 and 2^35 (coarse: vertices reported to the nearest lattice unit, tolerances widened accordingly); every polyline "
-        "is clipped alone and in batches of 3; TLC computes the exact inside length (rational Liang-Barsky parameters, integer square-root brackets at "
+        "is clipped alone; groups of 3 polylines, with one-vertex paths (inside / on / outside the rectangle) and empty paths mixed in after polylines "
+        "that produce output, are clipped by one multi-path Execute and then a second Execute on the same RectClipLines64 object (an in-rectangle "
+        "one-vertex path first) - the pieces must be attributable path by path, in call order; TLC computes the exact inside length (rational Liang-Barsky parameters, integer square-root brackets at "
         "1/16 unit), the crossing count, and decides on-polyline / in-rectangle / order-and-direction / length; non-trivial = the library returned at "
         "least one piece and not the unchanged polyline, distinct by (embedding, rectangle, polyline)")
 
